@@ -131,10 +131,11 @@ Attach(S, v, e) == IF v = None THEN S ELSE [S EXCEPT !.vl[v] = AppendNew(@, e)]
 Other(S, e, x) == IF S.ends[e][1] = x THEN S.ends[e][2]
                   ELSE IF S.ends[e][2] = x THEN S.ends[e][1] ELSE None
 
-\* queries, dontdup and unlink walk x.links and call other(): they are only
-\* specified on vertices all of whose links are two-ended and have two entries
+\* queries, dontdup and unlink walk x.links and call other(), which looks at the
+\* first two entries: they are specified on vertices all of whose links are
+\* two-ended and have at least two entries (a lost-end edge raises IndexError)
 QDom(S, x) == \A i \in DOMAIN S.vl[x] : /\ S.kind[S.vl[x][i]] \in TwoKinds
-                                         /\ Len(S.ends[S.vl[x][i]]) = 2
+                                         /\ Len(S.ends[S.vl[x][i]]) >= 2
 
 -----------------------------------------------------------------------------
 (* Link construction *)
